@@ -191,6 +191,9 @@ Definition to_int64 (u : Z) : Z := if u <? 9223372036854775808 then u else u - 1
 Definition max_expiry_seconds : Z := Z.quot 9223372036854775807 billion.
 Definition min_expiry_seconds : Z := Z.quot (-9223372036854775808) billion.
 
+Definition no_overflow64 (v : Z) : res unit :=
+  if (-9223372036854775808 <=? v) && (v <=? 9223372036854775807) then Ok tt else UB.
+
 Definition empty_manifest : manifest :=
   {| mf_chunk_id := repeat 0 32; mf_hash := repeat 0 32; mf_nonce := repeat 0 12;
      mf_threshold := 0; mf_total := 0; mf_expires_ns := 0; mf_shards := []; mf_meta := [];
@@ -206,6 +209,7 @@ Definition dec_payload (payload : list Z) : res manifest :=
   '(be, r) <- take 8 r ;;
   let secs := to_int64 (u64_of8 be) in
   throw_if ((max_expiry_seconds <? secs) || (secs <? min_expiry_seconds)) IA (
+  _ <- no_overflow64 (secs * billion) ;;   (* time_point{seconds{secs}}: int64 nanoseconds, signed overflow is UB *)
   '(thr, r) <- take1 r ;;
   '(tot, r) <- take1 r ;;
   '(cnt, r) <- take1 r ;;
